@@ -72,6 +72,8 @@ fn rec_to_norm(r: &Rec) -> MetaNorm {
 /// Writes one record into the bucket of keys[0]; returns the record as written.
 fn write_rec(ctx: &Ctx, keys: &[String], r: &RecSpec) -> Result<Rec, String> {
     let rec = to_rec(keys, r);
+    #[allow(unused_mut)]
+    let mut rec = rec;
     let bucket = reffmt::bucket_path(&ctx.cache, &keys[0]);
     let via = if r.key != 0 { match r.via { Via::Ref { .. } => r.via, _ => Via::Ref { ascii: false, reversed: false } } } else { r.via };
     match via {
@@ -80,6 +82,23 @@ fn write_rec(ctx: &Ctx, keys: &[String], r: &RecSpec) -> Result<Rec, String> {
             use std::io::Write;
             let mut f = std::fs::OpenOptions::new().create(true).append(true).open(&bucket).map_err(|e| e.to_string())?;
             f.write_all(&reffmt::encode_record(&rec, EmitStyle { ascii, reversed })).map_err(|e| e.to_string())?;
+        }
+        // removals go through the public removal calls half of the time (they choose their own
+        // timestamp, which no lookup shows)
+        Via::LibSync | Via::LibAsync if r.tomb && r.salt % 2 == 0 => {
+            let res = if via == Via::LibSync { cacache::index::delete(&ctx.cache, &keys[0]) } else { crate::rt::block_on(cacache::index::delete_async(&ctx.cache, &keys[0])) };
+            res.map_err(|e| format!("index delete failed: {e}"))?;
+            // (the call chose timestamp and size itself: taken from what it wrote)
+            let mut rec = rec;
+            if let Some(last) = std::fs::read(&bucket).ok().and_then(|b| reffmt::parse_bucket(&b).pop()) {
+                if last.integrity.is_none() && last.key == rec.key {
+                    rec.time = last.time;
+                    rec.size = last.size;
+                    rec.metadata = last.metadata;
+                    rec.raw_metadata = last.raw_metadata;
+                }
+            }
+            return Ok(rec);
         }
         Via::LibSync | Via::LibAsync => {
             let mut o = cacache::WriteOpts::new().size(r.size as usize).time(r.time as u128);
@@ -436,6 +455,17 @@ impl Engine for C06 {
                 let mut expect = before_append.clone();
                 expect.extend(reffmt::encode_record(&rec, EmitStyle { ascii: false, reversed: false }));
                 st.eval(1);
+                // every successful insert or removal is a record of its own (a removal repeated is
+                // recorded twice: damage to one of the two leaves the key removed)
+                if r.key == 0 && matches!(r.via, Via::LibSync | Via::LibAsync) {
+                    let (n0, n1) = (reffmt::parse_bucket(&before_append).len(), reffmt::parse_bucket(&after_append).len());
+                    if n1 != n0 + 1 {
+                        return Err(format!(
+                            "after damage {:?}, append #{i} {:?} (removal: {}): the call succeeded but the bucket holds {n1} valid records, {n0} before it",
+                            c.damages, r.via, r.tomb
+                        ));
+                    }
+                }
                 if ref_listing(&expect) != ref_listing(&after_append) {
                     return Err(format!(
                         "after damage {:?}, append #{i} {:?}: the bucket file ({} -> {} bytes) lost or gained entries: it lists {:?}, its valid records plus the appended one imply {:?}",
